@@ -138,6 +138,7 @@ type c18Env struct {
 	release  chan struct{}
 	upstream func() http.Header // hostile headers the backend adds to its response
 	status   int
+	interim  int // 1xx code the backend sends before its final answer (0: none)
 }
 
 func c18Run(c *fw.Ctx) {
@@ -168,7 +169,8 @@ func c18Run(c *fw.Ctx) {
 		}
 		y := "- service: svca\n  default:\n    from: " + hostA + "\n    to: {{backend:a}}\n    options:\n      allowed_email_addresses:\n        - alice@allowed.test\n      skip_auth_regex:\n        - '^/public/'\n" + ov +
 			"- service: down\n  default:\n    from: down.sso.test\n    to: 127.0.0.1:1\n    options:\n      allowed_email_addresses:\n        - alice@allowed.test\n" + ov +
-			"- service: slow\n  default:\n    from: slow.sso.test\n    to: {{backend:slow}}\n    options:\n      timeout: 150ms\n      allowed_email_addresses:\n        - alice@allowed.test\n" + ov
+			"- service: slow\n  default:\n    from: slow.sso.test\n    to: {{backend:slow}}\n    options:\n      timeout: 150ms\n      allowed_email_addresses:\n        - alice@allowed.test\n" + ov +
+			"- service: stream\n  default:\n    from: stream.sso.test\n    to: {{backend:a}}\n    options:\n      flush_interval: 100ms\n      allowed_email_addresses:\n        - alice@allowed.test\n" + ov
 		o := harness.ProxyOpts{YAML: y, Backends: []string{"a", "slow"}, TemplateVars: map[string]string{}, CookieSecure: secure}
 		if domain {
 			o.CookieDomain = "sso.test"
@@ -183,6 +185,12 @@ func c18Run(c *fw.Ctx) {
 				for _, v := range vs {
 					w.Header()[k] = append(w.Header()[k], v)
 				}
+			}
+			if ce.interim != 0 {
+				// an interim (1xx) response first, e.g. 103 Early Hints with a preload link
+				w.Header().Set("Link", "</style.css>; rel=preload; as=style")
+				w.WriteHeader(ce.interim)
+				w.Header().Del("Link")
 			}
 			w.WriteHeader(ce.status)
 			fmt.Fprint(w, harness.BackendMarker)
@@ -211,7 +219,7 @@ func c18Run(c *fw.Ctx) {
 		{"hsts-max-age-0", http.Header{"Strict-Transport-Security": {"max-age=0"}}},
 		{"hsts-duplicated", http.Header{"Strict-Transport-Security": {"max-age=1", "max-age=2; includeSubDomains"}}},
 	}
-	outcomes := []string{"proxied-200", "upstream-500", "backend-down-502", "backend-stalled", "skip-auth-proxied", "sign-in-302", "xhr-401", "forbidden-403", "token-revoked-401", "internal-500",
+	outcomes := []string{"proxied-200", "proxied-after-103-early-hints", "streamed-200", "streamed-after-103-early-hints", "streamed-after-102-processing", "upstream-500", "backend-down-502", "backend-stalled", "skip-auth-proxied", "sign-in-302", "xhr-401", "forbidden-403", "token-revoked-401", "internal-500",
 		"auth-only-202", "auth-only-401", "callback-error-param", "callback-missing-code", "callback-success", "sign-out", "robots", "certs", "path-cleaning-301", "favicon-404"}
 	protos := []string{"", "http", "https", "http, https", "https, http", "HTTPS"}
 	future, past := harness.At(time.Hour), harness.At(-time.Minute)
@@ -248,7 +256,7 @@ func c18Run(c *fw.Ctx) {
 		proto := protos[x.Choose("x-forwarded-proto", len(protos))]
 		xfh := x.Choose("x-forwarded-host", 2) == 1
 		hs := hostile[0]
-		if out == "proxied-200" || out == "upstream-500" || out == "skip-auth-proxied" {
+		if out == "proxied-200" || out == "upstream-500" || out == "skip-auth-proxied" || strings.HasPrefix(out, "streamed-") || strings.HasPrefix(out, "proxied-after-") {
 			hs = hostile[x.Choose("upstream-headers", len(hostile))]
 		}
 		if !owned {
@@ -257,7 +265,7 @@ func c18Run(c *fw.Ctx) {
 			mon.res = c.Res
 		}
 		ce.upstream = func() http.Header { return hs.h }
-		ce.status = 200
+		ce.status, ce.interim = 200, 0
 		sess := &sessions.SessionState{ProviderSlug: slugA, ProviderType: "sso", AccessToken: "at", RefreshToken: "rt", LifetimeDeadline: future, RefreshDeadline: future, ValidDeadline: future,
 			Email: "alice@allowed.test", User: "alice", AuthorizedUpstream: hostA}
 		e.Auth.Answer = func(cl *harness.AuthCall) harness.AuthAnswer {
@@ -277,6 +285,21 @@ func c18Run(c *fw.Ctx) {
 		switch out {
 		case "proxied-200":
 			withCookie(sess)
+		case "proxied-after-103-early-hints":
+			withCookie(sess)
+			ce.interim = 103
+		case "streamed-200", "streamed-after-103-early-hints", "streamed-after-102-processing":
+			// an upstream with flush_interval set (no timeout handler between the proxy's middleware and
+			// the reverse proxy), optionally answering with an interim response first
+			host = "stream.sso.test"
+			s := *sess
+			s.AuthorizedUpstream = host
+			withCookie(&s)
+			if strings.Contains(out, "103") {
+				ce.interim = 103
+			} else if strings.Contains(out, "102") {
+				ce.interim = 102
+			}
 		case "upstream-500":
 			withCookie(sess)
 			ce.status = 500
@@ -347,7 +370,24 @@ func c18Run(c *fw.Ctx) {
 		if xfh {
 			hdr.Set("X-Forwarded-Host", "login.evil.test") // client-chosen; must not steer redirects or cookies
 		}
-		resp := e.Do(harness.NewRequest(method, target, host, hdr, nil))
+		var resp *harness.Response
+		if strings.HasPrefix(out, "streamed-") || strings.HasPrefix(out, "proxied-after-") {
+			// through a real net/http server and connection: a response recorder would take the interim
+			// response for the final one
+			raw := method + " " + target + " HTTP/1.1\r\nHost: " + host + "\r\nConnection: close\r\n"
+			for k, vs := range hdr {
+				for _, v := range vs {
+					raw += k + ": " + v + "\r\n"
+				}
+			}
+			r, err := e.DoRaw(raw + "\r\n")
+			if err != nil {
+				panic(explore.HarnessError{Msg: "C18: raw request failed: " + err.Error()})
+			}
+			resp = r
+		} else {
+			resp = e.Do(harness.NewRequest(method, target, host, hdr, nil))
+		}
 		if out == "backend-stalled" {
 			// let the stalled backend finish (the proxy has already answered, or was upgraded to https)
 			select {
@@ -423,7 +463,7 @@ func init() {
 	fw.Register(&fw.Check{
 		ID:    "C18",
 		Level: "exploration",
-		Rule: "a response monitor is the only oracle. (a) dedicated product on the real proxy: outcome {proxied 200, upstream 500, backend down -> 502, backend stalled -> timeout page (the backend blocks until the harness releases it), skip-auth proxied, sign-in 302, XHR 401, 403 page, token-revoked 401 page, 500 page, /oauth2/auth 202 and 401, callback with error / without code / successful (sets session, clears CSRF), sign-out, robots, certs, path-cleaning 301, favicon 404} " +
+		Rule: "a response monitor is the only oracle. (a) dedicated product on the real proxy: outcome {proxied 200, proxied after 103 Early Hints, streamed upstream (flush_interval, no timeout handler) 200 / after 103 / after 102 (these over a real server connection so that interim responses are real), upstream 500, backend down -> 502, backend stalled -> timeout page (the backend blocks until the harness releases it), skip-auth proxied, sign-in 302, XHR 401, 403 page, token-revoked 401 page, 500 page, /oauth2/auth 202 and 401, callback with error / without code / successful (sets session, clears CSRF), sign-out, robots, certs, path-cleaning 301, favicon 404} " +
 			"x upstream response headers {none, X-Frame-Options, empty nosniff, X-XSS-Protection 0, duplicated, lower-case names, HSTS max-age=0, duplicated HSTS} x header_overrides {none, X-Frame-Options: DENY} x secure cookies {off, on} x X-Forwarded-Proto {none, http, https, 'http, https', 'https, http', HTTPS} x cookie domain {unset, set} x X-Forwarded-Host {absent, foreign}; (a') each authenticator endpoint x {GET, POST, PUT} without parameters (405 and error pages); " +
 			"(b) every response produced while the quick alphabets of the C06, C13 (proxy) and C08, C09 (authenticator) harnesses are re-driven (thorough: also C01 and C07). " +
 			"Monitor: the three proxy headers exactly once with the proxy's or the override's value; with secure cookies exactly the proxy's HSTS and a 301 to https://<same host><same decoded path>?<same query> for plain HTTP; session/CSRF Set-Cookie with the configured Secure, HttpOnly, Path=/ and Domain = request host without port or the configured domain; the authenticator's six-header set on its sign-in, sign-out, OAuth and token endpoints; " +
